@@ -350,6 +350,15 @@ func (e *CEnv) ev(x ast.Expr) CVal {
 						}
 					}
 				}
+				if e.pkg != nil {
+					if obj, ok := e.pkg.Scope().Lookup(id.Name).(*types.Var); ok {
+						if sp := e.g().prog.Package(obj.Pkg()); sp != nil {
+							if gl, ok := sp.Members[obj.Name()].(*ssa.Global); ok {
+								return CVal{T: e.fv.val(gl).v.T, S: sRef, Typ: gl.Type()}
+							}
+						}
+					}
+				}
 				cfail("address of %s: not an addressable local", id.Name)
 			}
 			// address-of: only &x.f of struct-typed fields (sub addresses)
